@@ -69,6 +69,49 @@ class Scenario:
         self.lines.append("sock %s 0%o %d %d" % (q(path), mode, uid, gid))
         self.nodes[path.strip("/")] = dict(kind="sock", mode=mode, uid=uid, gid=gid)
 
+    def add_link(self, path, target):
+        """hard link directive"""
+        self.lines.append("link %s 0 0 0 %s" % (q(path), q(target)))
+        self.links = getattr(self, "links", {})
+        self.links[path.strip("/")] = target.strip("/")
+
+    def set_xattr(self, path, key, value):
+        self.xattrs = getattr(self, "xattrs", {})
+        self.xattrs.setdefault(path.strip("/"), {})[key] = value
+
+    def xattrfile(self):
+        xa = getattr(self, "xattrs", {})
+        if not xa:
+            return None
+        p = os.path.join(self.dir, "xattr.txt")
+        with open(p, "w") as f:
+            for path, kv in xa.items():
+                f.write("# file: %s\n" % path)
+                for k, v in kv.items():
+                    f.write("%s=0x%s\n" % (k, v.hex()))
+                f.write("\n")
+        return p
+
+    def expected(self):
+        """path(bytes) -> record comparable with fidelity.decoded_tree()"""
+        import hashlib
+        out = {}
+        xa = getattr(self, "xattrs", {})
+        for p, n in self.nodes.items():
+            rec = {"kind": n["kind"], "mode": n["mode"] & 0o7777, "uid": n["uid"], "gid": n["gid"],
+                   "xattrs": {k.encode(): v for k, v in xa.get(p, {}).items()}}
+            if n["kind"] == "slink":
+                rec["target"] = n["target"].encode()
+            if n["kind"] in ("chr", "blk"):
+                rec["devno"] = n["devno"]
+            if n["kind"] == "file":
+                rec["sha"] = hashlib.sha256(self.files[p]).hexdigest()
+                rec["size"] = len(self.files[p])
+            out[p.encode()] = rec
+        for p, t in getattr(self, "links", {}).items():
+            out[p.encode()] = dict(out[t.encode()], linkof=t.encode())
+        return out
+
     def packfile(self):
         p = os.path.join(self.dir, "pack.txt")
         with open(p, "w") as f:
@@ -77,7 +120,7 @@ class Scenario:
 
 
 def q(path):
-    if any(c in path for c in ' "\\'):
+    if any(c in path for c in ' \t"\\'):
         return '"' + path.replace("\\", "\\\\").replace('"', '\\"') + '"'
     return path
 
